@@ -352,40 +352,71 @@ func (h mapHandler) GAT(c common.GATRequest) (common.GetResponse, error) {
 	it, ok := h.m[string(c.Key)]
 	return common.GetResponse{Key: c.Key, Opaque: c.Opaque, Miss: !ok, Data: it.value, Flags: it.flags}, nil
 }
+
+// Get and GetE behave like the real handlers: the work runs in its own
+// goroutine and the results travel over unbuffered channels, an error is sent
+// on the error channel before the data channel is closed.  Injected panics are
+// raised synchronously (a panic inside the goroutine would kill the process,
+// which is not what is being tested here).
+func (h mapHandler) failsWithin(n int) int {
+	if h.failAt > 0 && *h.calls < h.failAt && h.failAt <= *h.calls+n {
+		return h.failAt - *h.calls // 1-based position of the failing call among the next n
+	}
+	return 0
+}
+
 func (h mapHandler) Get(c common.GetRequest) (<-chan common.GetResponse, <-chan error) {
-	rc := make(chan common.GetResponse, len(c.Keys))
-	ec := make(chan error, 1)
-	for i, k := range c.Keys {
-		if err := h.enter(); err != nil {
-			ec <- err
-			break
-		}
-		h.mu.Lock()
-		it, ok := h.m[string(k)]
-		h.mu.Unlock()
-		rc <- common.GetResponse{Key: k, Opaque: c.Opaques[i], Quiet: c.Quiet[i], Miss: !ok, Data: it.value, Flags: it.flags}
+	failPos := h.failsWithin(len(c.Keys))
+	if failPos > 0 && h.panics {
+		*h.calls += failPos - 1
+		h.enter() // panics
 	}
-	close(rc)
-	close(ec)
+	*h.calls += len(c.Keys)
+	rc := make(chan common.GetResponse)
+	ec := make(chan error)
+	go func() {
+		defer close(ec)
+		defer close(rc)
+		for i, k := range c.Keys {
+			if failPos > 0 && i == failPos-1 {
+				ec <- errInjected
+				return
+			}
+			h.mu.Lock()
+			it, ok := h.m[string(k)]
+			h.mu.Unlock()
+			rc <- common.GetResponse{Key: k, Opaque: c.Opaques[i], Quiet: c.Quiet[i], Miss: !ok, Data: it.value, Flags: it.flags}
+		}
+	}()
 	return rc, ec
 }
+
 func (h mapHandler) GetE(c common.GetRequest) (<-chan common.GetEResponse, <-chan error) {
-	rc := make(chan common.GetEResponse, len(c.Keys))
-	ec := make(chan error, 1)
-	for i, k := range c.Keys {
-		if err := h.enter(); err != nil {
-			ec <- err
-			break
-		}
-		h.mu.Lock()
-		it, ok := h.m[string(k)]
-		h.mu.Unlock()
-		rc <- common.GetEResponse{Key: k, Opaque: c.Opaques[i], Quiet: c.Quiet[i], Miss: !ok, Data: it.value, Flags: it.flags}
+	failPos := h.failsWithin(len(c.Keys))
+	if failPos > 0 && h.panics {
+		*h.calls += failPos - 1
+		h.enter() // panics
 	}
-	close(rc)
-	close(ec)
+	*h.calls += len(c.Keys)
+	rc := make(chan common.GetEResponse)
+	ec := make(chan error)
+	go func() {
+		defer close(ec)
+		defer close(rc)
+		for i, k := range c.Keys {
+			if failPos > 0 && i == failPos-1 {
+				ec <- errInjected
+				return
+			}
+			h.mu.Lock()
+			it, ok := h.m[string(k)]
+			h.mu.Unlock()
+			rc <- common.GetEResponse{Key: k, Opaque: c.Opaques[i], Quiet: c.Quiet[i], Miss: !ok, Data: it.value, Flags: it.flags}
+		}
+	}()
 	return rc, ec
 }
+
 func (h mapHandler) Close() error { *h.closed = true; return nil }
 
 type c12Full struct {
@@ -394,7 +425,7 @@ type c12Full struct {
 	Multi  bool     `json:"multi"`
 	Binary bool     `json:"binary"`
 	Cmd    wire.Cmd `json:"cmd"`
-	PKind  string   `json:"panicValue"` // string | error | eof | runtime
+	PKind  string   `json:"panicValue"` // string | error | eof | runtime | "returned-error" (no panic: the call returns an error)
 	Tier   string   `json:"tier"`       // L1 | L2
 	At     int      `json:"at"`
 	Preset bool     `json:"preset"`
@@ -443,8 +474,8 @@ func runC12Full(c c12Full) string {
 		c1, c2 := 0, 0
 		lastCalls = [2]*int{&c1, &c2}
 		cl1, cl2 := false, false
-		h1 := mapHandler{mu: mu, m: m1, calls: &c1, closed: &cl1, panics: true, pkind: c.PKind}
-		h2 := mapHandler{mu: mu, m: m2, calls: &c2, closed: &cl2, panics: true, pkind: c.PKind}
+		h1 := mapHandler{mu: mu, m: m1, calls: &c1, closed: &cl1, panics: c.PKind != "returned-error", pkind: c.PKind}
+		h2 := mapHandler{mu: mu, m: m2, calls: &c2, closed: &cl2, panics: c.PKind != "returned-error", pkind: c.PKind}
 		if failTier == "L1" {
 			h1.failAt = failAt
 		} else if failTier == "L2" {
@@ -482,8 +513,21 @@ func runC12Full(c c12Full) string {
 	cl.C.Write(burst)
 	rch := make(chan []byte, 1)
 	go func() {
-		b, _ := io.ReadAll(cl.R)
-		rch <- b
+		if c.PKind != "returned-error" {
+			b, _ := io.ReadAll(cl.R)
+			rch <- b
+			return
+		}
+		var b []byte
+		buf := make([]byte, 4096)
+		for {
+			n, err := cl.R.Read(buf)
+			b = append(b, buf[:n]...)
+			if err != nil || containsSentinel(b, c.Binary) {
+				rch <- b
+				return
+			}
+		}
 	}()
 	var stream []byte
 	select {
@@ -491,14 +535,30 @@ func runC12Full(c c12Full) string {
 	case <-time.After(10 * time.Second):
 		cl.C.Close()
 		stream = <-rch
-		return fmt.Sprintf("after a panic underneath %s the connection was not closed within 10s (the client would wait forever); bytes received: %q", c.Cmd, stream)
+		return fmt.Sprintf("after a failure (%s) underneath %s the connection was neither closed nor the following request answered within 10s (the client would wait forever); bytes received: %q", c.PKind, c.Cmd, stream)
 	}
-	<-done
-	if containsSentinel(stream, c.Binary) {
-		return fmt.Sprintf("a panic underneath %s was swallowed: the following request was answered on the same connection (bytes received: %q)", c.Cmd, stream)
-	}
-	if !*closed1 || (c.Orca != "l1only" && !*closed2) {
-		return fmt.Sprintf("after the panic the server did not close the connection's backend handlers (L1 closed=%v, L2 closed=%v)", *closed1, *closed2)
+	if c.PKind == "returned-error" {
+		// an error (not a panic) underneath: the request must end in an error reply
+		// followed by the sentinel's reply, or in EOF; either way within the bound,
+		// and the key must not stay locked
+		if !containsSentinel(stream, c.Binary) {
+			select {
+			case <-done:
+			case <-time.After(10 * time.Second):
+				return fmt.Sprintf("after a backend error underneath %s the connection was neither answered nor closed", c.Cmd)
+			}
+		} else {
+			cl.C.Close()
+			<-done
+		}
+	} else {
+		<-done
+		if containsSentinel(stream, c.Binary) {
+			return fmt.Sprintf("a panic underneath %s was swallowed: the following request was answered on the same connection (bytes received: %q)", c.Cmd, stream)
+		}
+		if !*closed1 || (c.Orca != "l1only" && !*closed2) {
+			return fmt.Sprintf("after the panic the server did not close the connection's backend handlers (L1 closed=%v, L2 closed=%v)", *closed1, *closed2)
+		}
 	}
 	// connection 2: the same key must not be locked
 	cl2, _, _, done2 := serve("", 0)
@@ -580,7 +640,7 @@ func TestC12FullPath(t *testing.T) {
 								n = n2
 							}
 							for at := 1; at <= n; at++ {
-								for _, pk := range []string{"string", "error", "eof", "runtime"} {
+								for _, pk := range []string{"string", "error", "eof", "runtime", "returned-error"} {
 									c := c12Full{Kind: "full", Orca: orca, Multi: multi, Binary: binary, Cmd: cmd, Tier: tier, At: at, Preset: preset, PKind: pk}
 									if binary {
 										c.Cmd.Opaque = 0x100
